@@ -303,10 +303,24 @@ def mon_c03_adders(im, p):
     afterwards; the valid adders on a container that already holds >= 10000 fail with ParserError and change nothing"""
     ns = im.ns
     fails = []
+    import collections
+
+    class _L(list):
+        pass
+
+    class _D(dict):
+        pass
+    makers = {'list': lambda n: list(range(n)), 'dict': lambda n: {str(i): i for i in range(n)},
+              'list-subclass': lambda n: _L(range(n)), 'dict-subclass': lambda n: _D((str(i), i) for i in range(n)),
+              'OrderedDict': lambda n: collections.OrderedDict((str(i), i) for i in range(n)),
+              'defaultdict': lambda n: collections.defaultdict(int, ((str(i), i) for i in range(n)))}
     for n in (9998, 9999, 10000, 10001):
-        for kind in ('list', 'dict'):
+        for kind0 in ('list', 'dict', 'list-subclass', 'dict-subclass', 'OrderedDict', 'defaultdict'):
+            if kind0 not in ('list', 'dict') and n not in (10000, 10001):
+                continue
+            kind = 'list' if kind0.startswith('list') else 'dict'
             for stmt, valid_on in p['stmts']:
-                c = list(range(n)) if kind == 'list' else {str(i): i for i in range(n)}
+                c = makers[kind0](n)
                 snap = copy.copy(c)
                 try:
                     im.p.eval(stmt, dict(evalimpl.Host({}).fns, c=c), max_ops_evaluated=1000)
@@ -316,11 +330,11 @@ def mon_c03_adders(im, p):
                 except Exception as e:
                     outcome = type(e).__name__
                 if len(c) > max(10000, n):
-                    fails.append({'signature': 'adder-over-cap:' + stmt, 'what': f'{stmt!r} on a {kind} of {n} elements left {len(c)} elements ({outcome})',
-                                  'input': {'stmt': stmt, 'kind': kind, 'n': n}})
+                    fails.append({'signature': 'adder-over-cap:' + stmt, 'what': f'{stmt!r} on a {kind0} of {n} elements left {len(c)} elements ({outcome})',
+                                  'input': {'stmt': stmt, 'kind': kind0, 'n': n}})
                 elif n >= 10000 and kind in valid_on and (outcome != 'ParserError' or c != snap):
-                    fails.append({'signature': 'adder-at-cap:' + stmt, 'what': f'{stmt!r} on a {kind} of {n}: outcome {outcome}, changed={c != snap}',
-                                  'input': {'stmt': stmt, 'kind': kind, 'n': n}})
+                    fails.append({'signature': 'adder-at-cap:' + stmt, 'what': f'{stmt!r} on a {kind0} of {n}: outcome {outcome}, changed={c != snap}',
+                                  'input': {'stmt': stmt, 'kind': kind0, 'n': n}})
     return {'fail': fails, 'nontrivial': True}
 
 
@@ -331,6 +345,29 @@ NUMERIC_BUILTINS = ('int', 'float', 'round', 'floor', 'ceil', 'abs', 'sum', 'min
 def mon_c04(im, p):
     ns = im.ns
     A = ns.ast_ops
+    if 'ctxprec' in p:
+        # a parser CONSTRUCTED while the host's thread is temporarily at another decimal precision, used afterwards at the
+        # default one: arithmetic stays in 28-digit decimals
+        with decimal.localcontext() as c:
+            c.prec = p['ctxprec']
+            imx = sqimpl.Impl(ns)
+            imx.p.eval('1 / 3')
+        fails = []
+        for src in p['srcs']:
+            try:
+                r = imx.p.eval(src, {'a': D(10) ** 20 + 1, 'b': D('0.1')})
+            except Exception:
+                continue
+            vals = []
+            walk(r, lambda x: vals.append(x) if isinstance(x, (D, int)) and not isinstance(x, bool) else None)
+            for x in vals:
+                if digits_of(x) is not None and digits_of(x) > 28:
+                    fails.append({'signature': 'digits-after-context-change', 'what': f'{src!r} evaluated by a parser constructed at '
+                                  f'precision {p["ctxprec"]} returned {digits_of(x)} significant digits', 'input': p})
+                    break
+            if fails:
+                break
+        return {'fail': fails, 'nontrivial': True}
     es = evalimpl.sread(p['line'].split(' ', 1)[1])
     src = unhx(evalimpl.field(es, 'src')[0])
     fails = []
@@ -662,6 +699,43 @@ def mon_c10(im, p):
     return {'fail': fails, 'nontrivial': True}
 
 
+def mon_c10_missing(im, p):
+    """the host's names mapping is a dict subclass that answers for keys it does not hold (Counter, defaultdict, a subclass
+    with __missing__): name resolution must still fall through to the builtins, undefined names must still be undefined,
+    and a mere lookup must not add keys to the mapping"""
+    import collections
+    ns = im.ns
+    fails = []
+
+    class _M(dict):
+        def __missing__(self, key):
+            return 0
+    for mk, label in ((lambda: collections.Counter({'x': 3}), 'Counter'), (lambda: collections.defaultdict(int, {'x': 3}), 'defaultdict'),
+                      (lambda: _M({'x': 3}), 'dict with __missing__')):
+        def outcome(names):
+            try:
+                return 'ok ' + repr(im.p.eval(src, names, max_ops_evaluated=500))
+            except ns.exc.ParserError:
+                return 'ParserError'
+            except Exception as e:
+                return type(e).__name__
+        for src, _ in p['cases']:
+            want = outcome({'x': 3})          # what a plain dict with the same contents gives
+            names = mk()
+            keys0 = set(names.keys())
+            got = outcome(names)
+            if want is not None and got != want:
+                fails.append({'signature': 'lookup-through-missing:' + label, 'what': f'{src!r} with a {label} as names gave {got}, expected {want}',
+                              'input': {'src': src, 'names': label}})
+                break
+            extra = set(names.keys()) - keys0 - set(re.findall(r'(?m)^\s*([A-Za-z_]\w*)\s*=(?!=)', src))
+            if extra:
+                fails.append({'signature': 'lookup-adds-keys:' + label, 'what': f'{src!r} with a {label} as names added the keys {sorted(extra)} to the host mapping',
+                              'input': {'src': src, 'names': label}})
+                break
+    return {'fail': fails, 'nontrivial': True}
+
+
 def mon_c10_noname(im, p):
     """eval without a names mapping must not write into the builtin table"""
     ns = im.ns
@@ -884,6 +958,10 @@ def _mkarg(a):
             return {kk: _mkarg(x) for kk, x in v}
         if k == 'tuple':
             return tuple(_mkarg(x) for x in v)
+        if k == 'biglist':
+            return [str(i) for i in range(v)]
+        if k == 'bigdict':
+            return {'k%d' % i: i for i in range(v)}
         if k == 'defaultdict':
             import collections
             d = collections.defaultdict(list)
@@ -1030,6 +1108,31 @@ def mon_c16(im, p):
     ns = im.ns
     PE = ns.exc.ParserError
     fails = []
+    if 'seq' in p:
+        # calls WITHOUT a names mapping: what one program assigns must be undefined for the next one
+        F = ns.functions.FUNCTIONS
+        before = dict(F)
+        try:
+            for src in p['seq'][:-1]:
+                try:
+                    im.p.eval(src)
+                except Exception:
+                    pass
+            last = p['seq'][-1]
+            try:
+                r = im.p.eval(last)
+                fails.append({'signature': 'undefined-name-resolved', 'what': f'after {p["seq"][:-1]!r} (evaluated without names), {last!r} returned {r!r} '
+                              'instead of raising ParserError for an undefined name', 'input': p})
+            except PE:
+                pass
+            except Exception as e:
+                fails.append({'signature': f'not-parser-error:eval:{type(e).__name__}', 'what': f'{last!r} raised {type(e).__name__}', 'input': p})
+        finally:
+            for k in list(F):
+                if k not in before:
+                    del F[k]
+            F.update(before)
+        return {'fail': fails, 'nontrivial': True}
     src = p['src']
     for api in p['apis']:
         try:
